@@ -503,3 +503,7 @@ mod tests {
         );
     }
 }
+
+#[cfg(kani)]
+#[path = "/verif/harness/anda_db/index_mod.rs"]
+mod verif_kani;
